@@ -124,11 +124,7 @@ func registerVF(P *Program) {
 		return nil
 	})
 	r("Param", func(in *Interp, args []Value) Value {
-		v, ok := in.params[argStr(args[0])]
-		if !ok {
-			panic(unsupported("vf.Param: missing parameter " + argStr(args[0])))
-		}
-		return in.ts.Str(v)
+		return in.ts.Str(in.params[argStr(args[0])]) // missing parameter = ""
 	})
 	r("ParamInt", func(in *Interp, args []Value) Value {
 		v, ok := in.params[argStr(args[0])]
